@@ -6,25 +6,35 @@ open PcbV PcbV.Screen
     real `Font` object): row `i` of character `c` -/
 def fontByte (c i : Nat) : Nat := (c * 37 + i * 101 + (c / 16) * 7) % 256
 
-def mkEnv (th tw fh fw : Nat) : Env :=
+/-- `dbcs = true`: codepage 936 (GBK) without box protection: lead 81..FE, trail 40..7E, 80..FE -/
+def mkEnv (th tw fh fw : Nat) (dbcs : Bool) : Env :=
   { g := { th := th, tw := tw, fh := fh, fw := fw }
     glyph := fun c a i j => if fontByte c i / 2 ^ (7 - j) % 2 = 1 then a else a / 16 % 8
-    backOf := fun a => a / 16 % 8 }
+    backOf := fun a => a / 16 % 8
+    conv := if dbcs then pairConv (fun b => decide (129 ≤ b ∧ b ≤ 254))
+                                  (fun b => decide (64 ≤ b ∧ b ≤ 254 ∧ b ≠ 127)) tw
+            else sbcsConv
+    dbcs := dbcs }
+
+/-- cell codes as 4 hex digits each, "-" for none -/
+def hex16 (l : List Nat) : String :=
+  if l.isEmpty then "-" else String.join (l.map fun n => hexByte (n / 256 % 256) ++ hexByte (n % 256))
+
+/-- pixels: hex, or "-" in DBCS runs (full-width sprite rendering is not modelled) -/
+def pxHex (skip : Bool) (l : List Nat) : String := if skip then "-" else toHex l
 
 def tab (h w : Nat) (f : Mat) : List Nat :=
   (List.range h).flatMap fun i => (List.range w).map fun j => f i j
 
-def showSub (s : Sub) : String := s!"{s.h},{s.w},{toHex (tab s.h s.w s.f)}"
-
-def showSignal : Signal → String
+def showSignal (skip : Bool) : Signal → String
   | .setMode a b c d => s!"M,{a},{b},{c},{d}"
   | .update row col text attrs y0 x0 sp =>
-    s!"U,{row},{col},{showSub text},{toHex (tab attrs.h attrs.w attrs.f)},{y0},{x0},{showSub sp}"
+    s!"U,{row},{col},{text.h},{text.w},{hex16 (tab text.h text.w text.f)},{toHex (tab attrs.h attrs.w attrs.f)},{y0},{x0},{sp.h},{sp.w},{pxHex skip (tab sp.h sp.w sp.f)}"
   | .clearRows b s t => s!"C,{b},{s},{t}"
   | .scroll up f t b => s!"S,{if up then "-1" else "1"},{f},{t},{b}"
 
 def showPage (e : Env) (p : Page) : String :=
-  s!"{toHex (tab e.g.th e.g.tw p.chars)},{toHex (tab e.g.th e.g.tw p.attrs)},{toHex (tab e.g.th e.g.tw p.utext)},{toHex (tab e.g.H e.g.W p.px)},{showBool p.visible}"
+  s!"{toHex (tab e.g.th e.g.tw p.chars)},{toHex (tab e.g.th e.g.tw p.attrs)},{hex16 (tab e.g.th e.g.tw p.utext)},{pxHex e.dbcs (tab e.g.H e.g.W p.px)},{showBool p.visible}"
 
 def nats (ws : List String) : Option (List Nat) := ws.mapM String.toNat?
 
@@ -53,21 +63,21 @@ def parseOp (w : String) : Option Op :=
     | _, _ => none
   | [] => none
 
-/-- `run th tw fh fw npages attr ops` → signals | visible page | pages | canvas pixels | canvas text
+/-- `run th tw fh fw npages attr dbcs ops` → signals | visible page | pages | canvas pixels | canvas text
     | what `rebuild` would send, folded into an empty canvas -/
 def handle : List String → String
-  | ["run", th, tw, fh, fw, np, attr, ops] =>
-    match nats [th, tw, fh, fw, np, attr], (if ops == "-" then some [] else (ops.splitOn ";").mapM parseOp) with
-    | some [th, tw, fh, fw, np, attr], some ops =>
-      let e := mkEnv th tw fh fw
+  | ["run", th, tw, fh, fw, np, attr, db, ops] =>
+    match nats [th, tw, fh, fw, np, attr, db], (if ops == "-" then some [] else (ops.splitOn ";").mapM parseOp) with
+    | some [th, tw, fh, fw, np, attr, db], some ops =>
+      let e := mkEnv th tw fh fw (db != 0)
       let (d, sigs) := runOps e (initDisp np attr 0) ops
       let all := modeSignal e :: sigs
       let cv := consume Canvas.empty all
       let cv2 := consume Canvas.empty (rebuild e d)
       let pages := (List.range np).map fun i => showPage e (d.pages i)
-      "ok " ++ ";".intercalate (all.map showSignal) ++ " " ++ toString d.vnum ++ " " ++ ";".intercalate pages
-        ++ " " ++ toHex (tab cv.ch cv.cw cv.px) ++ " " ++ toHex (tab cv.th cv.tw cv.tx)
-        ++ " " ++ toHex (tab cv2.ch cv2.cw cv2.px) ++ " " ++ toHex (tab cv2.th cv2.tw cv2.tx)
+      "ok " ++ ";".intercalate (all.map (showSignal e.dbcs)) ++ " " ++ toString d.vnum ++ " " ++ ";".intercalate pages
+        ++ " " ++ pxHex e.dbcs (tab cv.ch cv.cw cv.px) ++ " " ++ hex16 (tab cv.th cv.tw cv.tx)
+        ++ " " ++ pxHex e.dbcs (tab cv2.ch cv2.cw cv2.px) ++ " " ++ hex16 (tab cv2.th cv2.tw cv2.tx)
     | _, _ => "bad-op"
   | _ => "bad-op"
 
